@@ -155,7 +155,7 @@ func init() {
 				}
 			}
 			each(p.Steps)
-			// YAML leg (multi-line strings that begin with whitespace excluded, as in C09)
+			// YAML leg (a multi-line string that begins with whitespace makes it fail: known finding F22)
 			var outv any
 			json.Unmarshal(jb, &outv)
 			var strs []string
@@ -166,12 +166,18 @@ func init() {
 					excluded = true
 				}
 			}
-			if !excluded {
+			{
 				yb, yerr := yaml.Marshal(p)
 				if yerr == nil {
 					py, err := pipeline.Parse(bytes.NewReader(yb))
 					if err != nil && !warning.Is(err) {
-						oracleFail("C02", "yaml-reparse-error", short, err.Error()+"\n"+string(yb))
+						cls := "yaml-reparse-error"
+						if excluded {
+							cls = "yaml-indented-block" // known finding F22: yaml.v3 writes such a block scalar wrongly
+						}
+						oracleFail("C02", cls, short, err.Error()+"\n"+string(yb))
+					} else if excluded && projPipeline(py) != projPipeline(p) {
+						oracleFail("C02", "yaml-indented-block", short, "a multi-line string that begins with whitespace comes back changed from the YAML leg\n"+string(yb))
 					} else {
 						if ycnt, _ := checkAll("yaml", py.Steps); ycnt != signedBefore {
 							oracleFail("C02", "yaml-command-step-lost", short, fmt.Sprintf("%d command steps were signed, %d command steps come back from the YAML round trip\n%s", signedBefore, ycnt, yb))
